@@ -1116,6 +1116,9 @@ class Interp(object):
             vals = dict(zip(nt, args))
             vals.update(kwargs)
             if set(vals) != set(nt):
+                for k_, v_ in self._namedtuple_defaults(cref.qual).items():
+                    vals.setdefault(k_, v_)
+            if set(vals) != set(nt):
                 raise AbsRaise("TypeError", ("namedtuple %s expects fields %s" % (cref.qual, nt),))
             obj = AObj(cref.qual, vals, tag="namedtuple")
             obj.fields = nt
@@ -1137,7 +1140,25 @@ class Interp(object):
                     except ValueError:
                         return None
                     return f.split() if isinstance(f, str) else list(f)
+                # class C(typing.NamedTuple): the annotated names of the class body, in order
+                if (isinstance(b, ast.Name) and b.id == "NamedTuple") or (isinstance(b, ast.Attribute) and b.attr == "NamedTuple"):
+                    return [st.target.id for st in self.repo.classes[q].node.body
+                            if isinstance(st, ast.AnnAssign) and isinstance(st.target, ast.Name)]
         return None
+
+    def _namedtuple_defaults(self, qual):
+        out = {}
+        for q in self.repo.mro(qual):
+            ci = self.repo.classes[q]
+            if any((isinstance(b, ast.Name) and b.id == "NamedTuple") or (isinstance(b, ast.Attribute) and b.attr == "NamedTuple")
+                   for b in ci.base_exprs):
+                for st in ci.node.body:
+                    if isinstance(st, ast.AnnAssign) and isinstance(st.target, ast.Name) and st.value is not None:
+                        try:
+                            out[st.target.id] = ast.literal_eval(st.value)
+                        except ValueError:
+                            pass
+        return out
 
     def _is_exception_class(self, qual, seen=None):
         seen = seen or set()
